@@ -79,7 +79,8 @@ def C08():
             'derived Clone of PrefixTreeN / WBTreeMap is structural (clone independence then follows from value semantics)',
             'PrefixTree0::non_empty returns a tree holding the empty tuple (static item, declared by contract)',
             'callbacks passed as FnMut are pure functions of their arguments (Verus models FnMut calls without state change)',
-            'iter, iter_restrictions(_mut), mapped are covered by the bounded native sweep only',
+            'iter, iter_restrictions(_mut) are covered by the bounded native sweep only (mapped is proved; the sweep also exercises it)',
+            'the contract of WBTreeMap::iter / Iter::next (iterator protocol) -- proved on the real bodies by unit WB (evidence of C14)',
             'get_mut hands out a subtree that the caller may empty (the source says so); no wf guarantee after writing through it',
         ],
     }
